@@ -207,7 +207,7 @@ End One.
    Each hypothesis is needed: the _refuted theorems below give the op list that fails without
    it, and corpus/C02/sys replays each of them on the real code.
    ============================================================================================ *)
-From Muduo Require Import C02_Model C02_SysProofs C02_GenTie Gen_C02.
+From Muduo Require Import C02_Model C02_SysProofs C02_SysCount C02_GenTie Gen_C02.
 
 (* ---- no assertion fails, no destroyed object is used: every op list, every number of loops --- *)
 Theorem C02_sys_no_assert_reachable_partial : forall nio readd ops, run true (init_sys nio readd) ops <> Fault.
@@ -231,6 +231,29 @@ Theorem C02_affinity_step : forall strict s o s' obs, step strict s o = Ok (s', 
   exists k, getc s' c = Some k /\ k_loop k = thr.
 Proof. exact S02_affinity_step. Qed.
 Print Assumptions C02_affinity_step.
+
+(* ---- exactly one UP, at most one DOWN, per connection, over the whole system ------------------
+   cntU c obs / cntD c obs = number of OUp _ c / ODown _ c in obs.  Every run: they equal the
+   connection's ghost counters; under the hypotheses: UP at most once, DOWN only after UP and at
+   most once, UP has happened iff the connection left kConnecting, DOWN iff it is Disconnected
+   (without H3 the second DOWN is reachable: C02_down_once_foreign_refuted) ------------------ *)
+Theorem C02_sys_up_down_once_partial : forall nio readd ops s obs, run true (init_sys nio readd) ops = Ok (s, obs) ->
+  forall c k, getc s c = Some k ->
+  cntU c obs = k_ups k /\ cntD c obs = k_downs k /\ cntU c obs <= 1 /\ cntD c obs <= cntU c obs /\
+  (cntU c obs = 0 <-> k_st k = Connecting) /\ (cntD c obs = 1 <-> k_st k = Disconnected).
+Proof. exact S02_up_down_once. Qed.
+Print Assumptions C02_sys_up_down_once_partial.
+
+Theorem C02_sys_callbacks_counted : forall strict nio readd ops s obs, run strict (init_sys nio readd) ops = Ok (s, obs) ->
+  forall c, cntU c obs = upsof s c /\ cntD c obs = downsof s c.
+Proof. exact S02_counted. Qed.
+Print Assumptions C02_sys_callbacks_counted.
+
+Theorem C02_cnt_def : forall c o,
+  cntU c o = length (filter (fun x => match x with OUp _ c' => c' =? c | _ => false end) o) /\
+  cntD c o = length (filter (fun x => match x with ODown _ c' => c' =? c | _ => false end) o).
+Proof. intros c o. split; reflexivity. Qed.
+Print Assumptions C02_cnt_def.
 
 (* ---- destroyed at most once, close(fd) exactly then, and only when Disconnected, removed
    from its loop (Channel::remove ran, i.e. after the queued connectDestroyed) and not in the
